@@ -14,9 +14,10 @@ var props = map[string]propSpec{
 	}},
 	"C05": {Level: "model_checking", Harnesses: []harnessSpec{
 		{Name: "fwd", Quick: 60, Thorough: 600, Args: []string{"-prop", "C05"}},
+		{Name: "agentw", Quick: 60, Thorough: 600, Args: []string{"-prop", "C05"}},
 	}, Assume: []string{
+		"whole agent (harness agentw): the same lock-step through main() with a scripted backend whose response body produces chunk i only after the scripted proxy has seen chunk i-1 in the upload: plain, websocket-shim script injection, sessions, banner and all of them together x HTML / JSON / event-stream x chunk patterns with and without <head>, around the 1 KiB peek of the injection; httputil.ReverseProxy's periodic flush is real-time and plays no part (its writes reach the forwarder at once)",
 		"'within bounded time' is decided as logical progress: the backend-side handler continues only after the proxy endpoint has read every payload byte flushed so far; any stage that holds bytes back deadlocks under every schedule",
-		"the stage in front of the forwarder (httputil.ReverseProxy's copy loop) is not part of this harness; it is covered by the agent-level harness",
 	}},
 	"C06": {Level: "fault_enumeration", Harnesses: []harnessSpec{
 		{Name: "fwd", Quick: 200, Thorough: 1800, Args: []string{"-prop", "C06"}},
